@@ -40,7 +40,7 @@ RULES = [
  (r'^<ast::CallName as ast::AbstractSyntaxTree>::analyze$', r'^(unwrap\|unwrap|assert\|BoundsCheck)', 'G6', 'params()[1], first(), get(2) after the len() == 2 / len() == 3 tests on the same path'),
  (r'^parse::Match::scrutinee_type$', r'^panic', 'G6', 'unreachable!: Match::parse normalises arms to (Left,Right)/(None,Some)/(False,True) or returns IncompatibleMatchArms (R01.8)'),
  # ---- code generation invariants (also R03.3)
- (r'^compile::Scope::get_argument$', r'^unwrap\|expect', 'G6', 'Arguments::is_consistent(parameters) dominates compile in instantiate (R12.2) and every Parameter node was recorded by insert_parameter (R12.1)'),
+ (r'^compile::Scope::get_argument$', r'^unwrap\|expect', 'G6', 'Arguments::is_consistent(parameters) dominates compile in instantiate (R12.2) and every Parameter node was recorded by insert_parameter (R12.1); the checked arguments reach every compile scope (R12.3a)'),
  (r'^compile::<impl ast::SingleExpression>::compile$', r'^unwrap\|unwrap', 'G4', 'as_list() of an expression analysed in the List arm (its type was deconstructed with as_list)'),
  (r'^compile::compile_blk$', r'^assert\|(BoundsCheck|Overflow:Add)', 'G6', 'index < stmts.len() tested at entry; index + 1 <= len'),
  (r'^compile::for_while$', r'.*', 'G6', 'bit_width in {1,2,4,8,16} (guard R09.3): 2*bit_width - 1 >= 1, i - 1 >= 1, the copy ranges lie inside the stack of that size (debug_assert_eq on equal halves)'),
